@@ -228,6 +228,57 @@ fn check_threshold(meta: &Value) -> Vec<Value> {
     out
 }
 
+/// Scale: the attachment of an appender is by name; how many appenders are declared, and at which position the
+/// attached ones were declared, plays no part (Fanout.tla).  Declarations around 2^8 and 2^16 appenders.
+fn check_scale() -> Vec<Value> {
+    let mut out = vec![];
+    for n in [255usize, 256, 257, 65535, 65536, 65537, 70001] {
+        let calls = Arc::new(Mutex::new(vec![]));
+        let mut counters = Vec::with_capacity(n);
+        let mut b = log4rs::Config::builder();
+        for j in 0..n {
+            let c = Arc::new(AtomicUsize::new(0));
+            counters.push(c.clone());
+            let mut ab = log4rs::config::Appender::builder();
+            if j % 2 == 0 {
+                ab = ab.filter(Box::new(ScriptedFilter { app: j, idx: 1, resp: 'R', calls: calls.clone() }));
+            }
+            b = b.appender(ab.build(format!("a{}", j), Box::new(ScriptedAppender { n: c, fail: false, flushes: Arc::new(AtomicUsize::new(0)) })));
+        }
+        // attached: positions at the ends and around the powers of two; even positions carry a rejecting filter
+        let mut attached: Vec<usize> = [0, 1, 254, 255, 256, 257, 65534, 65535, 65536, 65537, n - 2, n - 1].into_iter().filter(|j| *j < n).collect();
+        attached.sort();
+        attached.dedup();
+        let mut rb = log4rs::config::Root::builder();
+        for j in &attached {
+            rb = rb.appender(format!("a{}", j));
+        }
+        let cfg = match b.build(rb.build(log::LevelFilter::Trace)) {
+            Ok(c) => c,
+            Err(e) => {
+                out.push(json!({"case": "scale", "input": {"appenders": n}, "mismatch": {"what": "build failed", "error": e.to_string()}}));
+                continue;
+            }
+        };
+        let logger = log4rs::Logger::new(cfg);
+        if let Err(p) = catch(|| logger.log(&log::Record::builder().target("x").level(log::Level::Info).args(format_args!("m")).build())) {
+            out.push(json!({"case": "scale", "input": {"appenders": n}, "mismatch": {"what": "log panicked", "error": p}}));
+            continue;
+        }
+        let got: Vec<usize> = (0..n).filter(|j| counters[*j].load(Ordering::SeqCst) > 0).collect();
+        let want: Vec<usize> = attached.iter().copied().filter(|j| j % 2 == 1).collect();
+        let mut consulted: Vec<usize> = calls.lock().unwrap().iter().map(|c: &(usize, usize)| c.0).collect();
+        consulted.sort();
+        let want_consulted: Vec<usize> = attached.iter().copied().filter(|j| j % 2 == 0).collect();
+        if got != want || consulted != want_consulted || want.iter().any(|j| counters[*j].load(Ordering::SeqCst) != 1) {
+            out.push(json!({"case": "scale", "input": {"appenders": n, "attached": attached},
+                            "mismatch": {"what": "deliveries with many declared appenders", "delivered_to": got, "expected": want,
+                                         "filters_consulted_of": consulted, "expected_consulted": want_consulted}}));
+        }
+    }
+    out
+}
+
 /// Chains declared in configuration files: every appender gets exactly its own filters, also when a
 /// neighbouring appender (with filters of its own) fails to build and is dropped by lossy loading.
 fn check_config_chains() -> Vec<Value> {
@@ -290,6 +341,7 @@ pub fn main(args: &[String]) {
     });
     res.extend(check_threshold(meta));
     res.extend(check_config_chains());
+    res.extend(check_scale());
     write_ndjson(&args[1], &res);
     println!("{}", json!({"cases": cases.len(), "mismatches": res.len(), "threshold_pairs": 30}));
 }
